@@ -751,6 +751,20 @@ func (h *HttpServer) handleExchangeCall(ctx context.Context, w http.ResponseWrit
 		InputMetadata: stripFrameworkTickMetadata(inputMeta),
 	}
 
+	// The batch object carries its custom metadata too, and over HTTP that is
+	// where the client put the cursor and the call token. Hand the handler
+	// the same columns under the stripped metadata, so that the tokens are as
+	// unreachable through the batch as they are through InputMetadata.
+	handlerBatch := inputBatch
+	if bwm, ok := inputBatch.(arrow.RecordBatchWithMetadata); ok {
+		if own := bwm.Metadata(); own.Len() > 0 {
+			if stripped := stripFrameworkTickMetadata(own); stripped.Len() != own.Len() {
+				handlerBatch = array.NewRecordBatchWithMetadata(inputBatch.Schema(), inputBatch.Columns(), inputBatch.NumRows(), stripped)
+				defer handlerBatch.Release()
+			}
+		}
+	}
+
 	var exchangeErr error
 	func() {
 		defer func() {
@@ -758,7 +772,7 @@ func (h *HttpServer) handleExchangeCall(ctx context.Context, w http.ResponseWrit
 				exchangeErr = &RpcError{Type: "RuntimeError", Message: fmt.Sprintf("%v", rv)}
 			}
 		}()
-		if err := state.Exchange(ctx, inputBatch, out, callCtx); err != nil {
+		if err := state.Exchange(ctx, handlerBatch, out, callCtx); err != nil {
 			exchangeErr = err
 		}
 	}()
